@@ -16,6 +16,14 @@ func init() {
 	vf.Register(&vf.Check{ID: "C06", Level: "model_checking", Run: run, Replay: replay})
 }
 
+// menuK2 is the reduced menu used for the pairs-per-block variant of the thorough tier.
+func menuK2(w *chain.World) []chain.Action {
+	return []chain.Action{
+		chain.V1Pay(true, 2), chain.V1SF(true), chain.V1Form(1, 2, 100), chain.V1Revise("pay"), chain.V1Proof(false),
+		chain.V2Pay(chain.AddrV2, true, 2), chain.V2Chain(chain.AddrV2), chain.V2SF(true), chain.V2Form(1, 2, 100), chain.V2Revise("pay"), chain.V2Renew("partial"), chain.V2Proof(), chain.V2Expire(),
+	}
+}
+
 func menu(w *chain.World) []chain.Action {
 	return []chain.Action{
 		chain.V1Pay(true, 2), chain.V1Chain(), chain.V1SF(true), chain.V1Form(1, 2, 100), chain.V1Form(0, 1, 10), chain.V1Revise("pay"), chain.V1Revise("grow"), chain.V1Proof(false), chain.V1Proof(true),
@@ -58,6 +66,13 @@ func run(c *vf.Ctx) {
 		x := chain.NewExplorer(c, m, "C06")
 		x.Run()
 		x.Report(n + "/")
+		if !c.Quick() && !c.Expired() {
+			m2 := *m
+			m2.Name, m2.Menu, m2.D, m2.K, m2.H = "union-pairs", menuK2, 2, 2, m.H-1
+			x2 := chain.NewExplorer(c, &m2, "C06")
+			x2.Run()
+			x2.Report(n + "/pairs/")
+		}
 	}
 	c.Sample(map[string]any{"network": "v2-only", "trace": []string{"block[v2form(a=1,b=2,F=100) + v2pay(class=1,fee=true,outs=2)]", "block[v2revise(pay)]", "revert(2)", "block[v2sf(split=true)]", "reorg-roundtrip(2)"}})
 	c.RequireFeature("reorg_roundtrips", "reorg_roundtrips_depth_2", "feature:revert_depth_1", "feature:revert_depth_2", "feature:v1_fc_revise", "feature:v2_fc_revise", "feature:v2_fc_renew", "feature:v1_fc_expire", "feature:v2_ephemeral_spend", "feature:v2_attestation")
@@ -73,7 +88,12 @@ func replay(c *vf.Ctx, raw json.RawMessage) {
 		}
 	}
 	raw2, _ := json.Marshal(tc)
-	w := chain.ReplayTraceWorld(c, raw2, func(string) func(w *chain.World) []chain.Action { return menu }, "C06", opt)
+	w := chain.ReplayTraceWorld(c, raw2, func(name string) func(w *chain.World) []chain.Action {
+		if name == "union-pairs" {
+			return menuK2
+		}
+		return menu
+	}, "C06", opt)
 	if w != nil && k > 0 {
 		if p := w.ReorgRoundTrip(k); p != nil {
 			c.Violate("C06|"+p.Sig, p.Desc, tc)
